@@ -13,6 +13,7 @@ boundary='process' round-trips fn+arguments at submit and the return value at
 completion through cloudpickle, cutting aliasing exactly where a process pool
 cuts it; boundary='thread' passes the caller's objects through untouched.
 """
+import traceback
 import multiprocessing.pool
 
 import cloudpickle
@@ -105,6 +106,7 @@ class _Core:
         try:
             t.value = t.fn(*t.args, **t.kwargs)
         except Exception as e:  # delivered at result()
+            traceback.clear_frames(e.__traceback__)  # see World._ActorCtx.__exit__
             t.exc = e
 
     def _finish(self, t):
